@@ -57,14 +57,14 @@ def confirm(d):
         drop(wt)
 
 
-def cmd_import(src):
+def cmd_import(src, tag=""):
     base = os.path.join(src, "_seed")
     for n in sorted(os.listdir(base)):
         d = os.path.join(base, n)
         if not os.path.exists(os.path.join(d, "patch.diff")):
             continue
         meta = json.load(open(os.path.join(d, "meta.json")))
-        name = "%s-%s" % (meta["property"], n)
+        name = "%s-%s%s" % (meta["property"], tag, n)
         c = confirm(d)
         ok = c.get("demo_unpatched_exit") == 0 and c.get("applies") and c.get("tests_patched_pass") and c.get("demo_patched_exit", 0) != 0
         print(name, "CONFIRMED" if ok else "REJECTED", c)
@@ -123,8 +123,15 @@ if __name__ == "__main__":
     a = sys.argv[1:]
     if a and a[0] == "import":
         os.makedirs(SEEDED, exist_ok=True)
+        tag = ""
+        srcs = []
         for s in a[1:]:
-            cmd_import(s)
+            if s.startswith("--tag="):
+                tag = s[6:]
+            else:
+                srcs.append(s)
+        for s in srcs:
+            cmd_import(s, tag)
         write_results()
     elif a and a[0] == "run":
         tier = "quick"
